@@ -644,6 +644,13 @@ pub fn terminal_checks(sim: &mut Sim, snap: &VerifSnapshot, m: Mon, ex: &mut Exe
                             v.push(viol("C08", "failed-edge-changed", format!("{} changed {:?} -> {:?} although {} failed", k, cfg.hist.get(&k), nh.get(&k), id)));
                         }
                     }
+                    // ... including what it last consumed from jobs that are not in the graph under that
+                    // name any more (removed, or a multi-output job that changed its id)
+                    for k in old_links_into(&cfg, id) {
+                        if nh.get(&k) != cfg.hist.get(&k) {
+                            v.push(viol("C08", "failed-old-link-changed", format!("{} changed {:?} -> {:?} although {} failed", k, cfg.hist.get(&k), nh.get(&k), id)));
+                        }
+                    }
                 }
             }
             Disp::UF | Disp::Aborted => {
@@ -672,6 +679,14 @@ pub fn terminal_checks(sim: &mut Sim, snap: &VerifSnapshot, m: Mon, ex: &mut Exe
                         if nh.get(&k) != cfg.hist.get(&k) {
                             v.push(
                                 viol("C09", "never-started-edge-changed", format!("{} changed {:?} -> {:?} although {} never started", k, cfg.hist.get(&k), nh.get(&k), id))
+                                    .tag("disp", format!("{:?}", disp[j])),
+                            );
+                        }
+                    }
+                    for k in old_links_into(&cfg, id) {
+                        if nh.get(&k) != cfg.hist.get(&k) {
+                            v.push(
+                                viol("C09", "never-started-old-link-changed", format!("{} changed {:?} -> {:?} although {} never started", k, cfg.hist.get(&k), nh.get(&k), id))
                                     .tag("disp", format!("{:?}", disp[j])),
                             );
                         }
@@ -744,6 +759,20 @@ pub fn terminal_checks(sim: &mut Sim, snap: &VerifSnapshot, m: Mon, ex: &mut Exe
         driver_fault: sim.aborted || sim.res.iter().any(|r| matches!(r, Res::Failed | Res::AbortedRunning)),
         offered: sim.offered.clone(),
     })
+}
+
+/// link records `X!!!id` of the input history whose upstream X is not a job of the current graph
+fn old_links_into(cfg: &Cfg, id: &str) -> Vec<String> {
+    let suffix = format!("!!!{}", id);
+    cfg.hist
+        .keys()
+        .filter(|k| k.ends_with(&suffix) && k.len() > suffix.len())
+        .filter(|k| {
+            let x = &k[..k.len() - suffix.len()];
+            !x.contains("!!!") && cfg.graph.idx(x).is_none()
+        })
+        .cloned()
+        .collect()
 }
 
 /// C18: records of absent jobs kept (unless superseded), removed dependencies
